@@ -112,3 +112,12 @@ fn(RM + "._send_websocket_redirect", params={"scope": WWW, "send": SEND}, raises
    requires=[("ws_redirect.pre.ascii", "is_ascii(scope['raw_path']) and is_ascii(scope['query_string'])")],
    ensures=[("C20.redirect.ws-scheme", "n_emitted('asgi_sent') == 2 and emitted('asgi_sent')[0]['status'] == 307", "C20")],
    props=("C20",))
+
+# constructors of the middlewares: what __call__ decides on is what the caller configured (C20 "zero
+# trusted hops ... the scope is left untouched": a configured 0 stays 0)
+fn(PF + "ProxyFixMiddleware.__init__", params={"app": APP, "mode": "str", "trusted_hops": "int"},
+   ensures=[("C20.proxy.init", "same(self.app, app) and self.mode == mode and self.trusted_hops == trusted_hops", "C20")], props=("C20",))
+fn(DM + "_DispatcherMiddleware.__init__", params={"mounts": "obj pyvc:Mounts"},
+   ensures=[("C20.dispatch.init", "same(self.mounts, mounts)", "C20")], props=("C20",))
+fn(RM + ".__init__", params={"app": APP, "host": "opt str"},
+   ensures=[("C20.redirect.init", "same(self.app, app) and self.host == host", "C20")], props=("C20",))
